@@ -9,7 +9,8 @@ from __future__ import annotations
 
 import asyncio
 import math
-from datetime import datetime, timedelta
+from datetime import datetime, timedelta, timezone
+from zoneinfo import ZoneInfo
 from typing import Any
 
 from hypothesis import strategies as st
@@ -64,6 +65,8 @@ def strategy(tier: str, pid: str = "C08") -> st.SearchStrategy[Any]:
         "age": st.sampled_from([1.0, 1.5, 2.0, 3.0]),
         "ibl": st.sampled_from([1, 2, 4, 16]),
         "ticks": st.lists(silent_or_busy, min_size=3, max_size=20 if tier == "quick" else 60),
+        # "dst": the run starts 3 s before a daylight-saving switch and the samples are stamped in that zone
+        "zone": st.sampled_from(["utc", "utc", "utc", "dst"]),
     })
 
 
@@ -72,6 +75,11 @@ def run_case(case: Any, pid: str) -> Verdict:
     v = Verdict()
     p = timedelta(milliseconds=case["period_ms"])
     q = p / 4
+    dst = case.get("zone") == "dst"
+    t0 = datetime(2024, 3, 31, 0, 59, 57, tzinfo=timezone.utc) if dst else world.T0
+    zone: Any = ZoneInfo("Europe/Berlin") if dst else timezone.utc
+    if dst:
+        v.labels.add("samples_stamped_in_a_zone_across_a_dst_switch")
     age = case["age"]
     calls: dict[str, Any] = {}
 
@@ -97,11 +105,11 @@ def run_case(case: Any, pid: str) -> Verdict:
 
         resampler.add_timeseries("x", rx, sink)
         sender = chan.new_sender()
-        last_ts = world.T0 - timedelta(days=1)
+        last_ts = t0 - timedelta(days=1)
         ctr = 0
         pending_future: list[datetime] = []
         for n, tick in enumerate(case["ticks"], start=1):
-            t_end = world.T0 + n * p
+            t_end = t0 + n * p
             t_arr = t_end - p
             for dq, off, kind in tick:
                 t_arr = min(t_end, t_arr + dq * q)
@@ -112,7 +120,7 @@ def run_case(case: Any, pid: str) -> Verdict:
                 last_ts = stamp
                 ctr += 1
                 value = Quantity(float(ctr)) if kind == "v" else (None if kind == "none" else Quantity(math.nan))
-                await sender.send(Sample(stamp, value))
+                await sender.send(Sample(stamp.astimezone(zone), value))
                 await world.settle()
                 if kind == "v":
                     arrived.append((stamp, float(ctr)))
@@ -185,7 +193,7 @@ def run_case(case: Any, pid: str) -> Verdict:
                 flags["silent_run"] = 0
         await resampler.stop()
 
-    world.run(scenario)
+    world.run(scenario, t0=t0)
     v.nontrivial = bool(v.labels & {"sample_on_upper_edge", "sample_on_lower_edge", "future_sample_pending", "silence_then_data"})
     return v
 
